@@ -240,6 +240,25 @@ impl<'a, 'tcx> Cx<'a, 'tcx> {
                     }
                 }
             }
+            Const::Unevaluated(uv, _) if uv.promoted.is_some() && is_small_adt_ref(ty) => {
+                // promoted `&Enum::Variant` / `&Some(Enum::Variant)` operands of comparisons: render the value
+                if let Ok(cv @ ConstValue::Scalar(Scalar::Ptr(ptr, _))) = c.eval(self.tcx, env, rustc_span::DUMMY_SP) {
+                    if let Some(GlobalAlloc::Memory(alloc)) = self.tcx.try_get_global_alloc(ptr.provenance.alloc_id()) {
+                        let a = alloc.inner();
+                        if a.len() <= 16 && a.provenance().ptrs().is_empty() {
+                            let _ = cv;
+                            let inner = match ty.kind() { ty::Ref(_, i, _) => *i, _ => ty };
+                            let (prov, off) = ptr.into_raw_parts();
+                            let pointee = ConstValue::Indirect { alloc_id: prov.alloc_id(), offset: off };
+                            let shown = with_no_trimmed_paths!(format!("{}", Const::Val(pointee, inner)));
+                            if shown.len() <= 300 {
+                                let _ = write!(o, ",\"pp\":{}", js(&fixcrate(shown)));
+                            }
+                        }
+                    }
+                }
+                let _ = write!(o, ",\"cdef\":{}", js(&path_str(self.tcx, uv.def)));
+            }
             Const::Unevaluated(uv, _) if !ty.is_fn() && ty.is_ref() => {
                 // named `const X: &str = "..."`: evaluate to recover the literal (never for generic consts)
                 let generic = uv.args.iter().any(|a| a.as_type().map(|t| !t.is_ty_var() && matches!(t.kind(), ty::Param(_))).unwrap_or(false));
@@ -732,6 +751,15 @@ impl rustc_driver::Callbacks for Cb {
         std::fs::rename(&tmp, &path).expect("rename facts");
         rustc_driver::Compilation::Continue
     }
+}
+
+fn is_small_adt_ref(ty: Ty<'_>) -> bool {
+    if let ty::Ref(_, inner, _) = ty.kind() {
+        if let ty::Adt(def, _) = inner.kind() {
+            return def.is_enum();
+        }
+    }
+    false
 }
 
 fn is_byte_array_ref(ty: Ty<'_>) -> bool {
